@@ -4,7 +4,7 @@ ENTRY = {
         "gomaxprocs": 2,
         "textpatch": [{"file": "lancero_source.go", "old": "ls.readPeriod = 50 * time.Millisecond", "new": "ls.readPeriod = lanceroReadPeriod"},
                       {"file": "lancero_source.go", "old": "ticker := time.NewTicker(ls.readPeriod)", "new": "ticker := v04NewTicker(ls.readPeriod)"}],
-        "quick": T(16, 90), "thorough": T(16, 600),
+        "quick": T(16, 150), "thorough": T(16, 600),
         "rule": "one execution = one (geometry, stream start offset, chunking of the byte stream into driver reads, external-trigger pattern, mix change, lost-byte gap) through the real "
                 "LanceroSource.PrepareChannels, PrepareRun, StartRun, launchLanceroReader, getNextBlock, ConfigureMixFraction and distributeData with a scripted card; every output sample is matched "
                 "to a frame of the card's stream (channel order, err/fb pairing), feedback delay/flag clearing/mix/saturation, external-trigger counts, re-alignment, loss reporting and "
